@@ -505,7 +505,7 @@ func realMain() int {
 			ur.Kind = "structural"
 			ur.Target = x.fnShort(u.nb.Target)
 			ur.Props = u.nb.Props
-			x.checkNoBlock(u.nb.Target)
+			x.checkNoBlock(u.nb.Target, u.nb.Recv)
 			finals = []*State{newState()}
 		} else {
 			x.unit = "sweep:" + x.fnShort(u.sw.Target)
